@@ -77,9 +77,9 @@ func refTree(n *node) *jv {
 		return &jv{t: 's', s: n.Str}
 	case kBin:
 		return &jv{t: 'b', s: string(n.Bin)}
-	case kSliceAny, kSliceBin, kSliceS, kSlicePtrS, kSliceSliceBin:
+	case kSliceAny, kSliceBin, kSliceS, kSlicePtrS, kSliceSliceBin, kSliceMapAny:
 		return refArr(n.Kids)
-	case kMapAny, kMapBin, kMapPtrS:
+	case kMapAny, kMapBin, kMapPtrS, kMapMapAny, kMapSliceAny:
 		return refMap(n)
 	case kS, kPtrS:
 		return refS(n)
